@@ -50,6 +50,9 @@ def _idx(rng, n):
     return idx
 
 
+STATS = {}
+
+
 def cases(ctx):
     rng = ctx.rng
     if ctx.tier == "thorough":
@@ -214,7 +217,12 @@ def run_case(c):
         return {"brle": _ints(r), "dense": _ints(rl.brle_to_dense(r))}
     if k == "rle_ops":
         dt = getattr(np, c["dtype"])
-        rle = np.array(c["rle"], dtype=np.int64).reshape(-1)
+        # the encoded data as the library itself hands it out: in the (narrow) count dtype when everything fits -
+        # e.g. what dense_to_brle(dtype=np.uint8) returns - every other case as int64
+        flat_ = [x for pr in c["rle"] for x in pr]
+        narrow = bool(flat_) and max(flat_) <= np.iinfo(dt).max and min(flat_) >= 0 and sum(c_ for _, c_ in c["rle"]) % 2 == 0
+        STATS["rle_ops_stored_narrow" if narrow else "rle_ops_stored_int64"] = STATS.get("rle_ops_stored_narrow" if narrow else "rle_ops_stored_int64", 0) + 1
+        rle = np.array(c["rle"], dtype=dt if narrow else np.int64).reshape(-1)
         idx = c["idx"] if c["idx_list"] else np.array(c["idx"], dtype=np.int64)
         mask = np.array(c["mask"], dtype=bool)
         o = {}
@@ -230,7 +238,9 @@ def run_case(c):
         return o
     if k == "brle_ops":
         dt = getattr(np, c["dtype"])
-        b = np.array(c["brle"], dtype=np.int64)
+        narrow = bool(c["brle"]) and max(c["brle"]) <= np.iinfo(dt).max and sum(c["brle"]) % 2 == 0
+        STATS["brle_ops_stored_narrow" if narrow else "brle_ops_stored_int64"] = STATS.get("brle_ops_stored_narrow" if narrow else "brle_ops_stored_int64", 0) + 1
+        b = np.array(c["brle"], dtype=dt if narrow else np.int64)
         idx = c["idx"] if c["idx_list"] else np.array(c["idx"], dtype=np.int64)
         mask = np.array(c["mask"], dtype=bool)
         o = {}
